@@ -1,7 +1,7 @@
 (* C16 — proofs: the three stream wrappers meet their specs for every script and every positive
    consumer; the pre-fix code is refuted on concrete witnesses; the boolean oracles decide the
    spec predicates.  No axioms. *)
-From Kit Require Import Lib.ReaderFacts C16.Model C16.Spec C16.Check.
+From Kit Require Import C16.Model C16.Spec C16.Check.
 
 (* ===================================================================================== *)
 (* Oracle soundness                                                                        *)
@@ -11,14 +11,13 @@ Lemma limit_oracle_sound n s out e cb ca :
 Proof.
   unfold limit_oracle, limit_spec. cbv zeta.
   rewrite andb_true_iff, Nat.eqb_eq.
-  destruct (Z.of_nat (length (data_of s)) >? n)%Z; [|destruct (ends_eof s)].
+  destruct (Z.of_nat (length (data_of s)) >? n)%Z.
   - rewrite !andb_true_iff, eqb_listN_spec, err_eqb_spec, orb_true_iff, Z.ltb_lt, Nat.eqb_eq.
     split.
     + intros (Hca & (Ho & He) & Hcb). repeat split; try assumption.
       intro Hn. destruct Hcb as [Hcb|Hcb]; [lia | exact Hcb].
     + intros (Hca & Ho & He & Hcb). repeat split; try assumption.
       destruct (Z.lt_ge_cases n 0) as [Hn|Hn]; [left; exact Hn | right; exact (Hcb Hn)].
-  - rewrite andb_true_iff, eqb_listN_spec, err_eqb_spec; reflexivity.
   - rewrite andb_true_iff, eqb_listN_spec, err_eqb_spec; reflexivity.
 Qed.
 
@@ -74,25 +73,37 @@ Proof.
   rewrite !andb_true_iff, eqb_listN_spec, !Nat.eqb_eq, prefixb_spec.
   assert (Hm :
     match e with
-    | EEOF => eqb_listN out (data_of s) && ends_eof s
-    | EFail => eqb_listN out (data_of s) && negb (ends_eof s)
     | EWriter => match b with None => false | Some _ => true end
-    | _ => false
+    | _ => eqb_listN out (data_of s) && err_eqb e (end_of s)
     end = true <->
     match e with
-    | EEOF => out = data_of s /\ ends_eof s = true
-    | EFail => out = data_of s /\ ends_eof s = false
     | EWriter => b <> None
-    | _ => False
+    | _ => out = data_of s /\ e = end_of s
     end).
-  { destruct e.
-    - split; [discriminate | tauto].
-    - rewrite andb_true_iff, eqb_listN_spec. reflexivity.
-    - rewrite andb_true_iff, eqb_listN_spec, negb_true_iff. reflexivity.
-    - split; [discriminate | tauto].
-    - split; [discriminate | tauto].
-    - destruct b; split; intro H; try reflexivity; try discriminate H; congruence. }
+  { destruct e; try (rewrite andb_true_iff, eqb_listN_spec, err_eqb_spec; reflexivity).
+    destruct b; split; intro H; try reflexivity; try discriminate H; congruence. }
   rewrite Hm. tauto.
+Qed.
+
+Lemma limit_stop_oracle_sound n s out ca :
+  limit_stop_oracle n s out ca = true <-> limit_stop_spec n s out ca.
+Proof.
+  unfold limit_stop_oracle, limit_stop_spec.
+  rewrite !andb_true_iff, Nat.eqb_eq, prefixb_spec, Z.leb_le. tauto.
+Qed.
+
+Lemma multi_stop_oracle_sound srcs out ca :
+  multi_stop_oracle srcs out ca = true <-> multi_stop_spec srcs out ca.
+Proof.
+  unfold multi_stop_oracle, multi_stop_spec.
+  rewrite andb_true_iff, prefixb_spec, eqb_listnat_spec. tauto.
+Qed.
+
+Lemma tee_stop_oracle_sound s out w sc wc :
+  tee_stop_oracle s out w sc wc = true <-> tee_stop_spec s out w sc wc.
+Proof.
+  unfold tee_stop_oracle, tee_stop_spec.
+  rewrite !andb_true_iff, eqb_listN_spec, !Nat.eqb_eq, prefixb_spec. tauto.
 Qed.
 
 (* ===================================================================================== *)
@@ -104,7 +115,7 @@ Section Limit.
   Definition lim_inv (l : lim) (acc : list N) : Prop :=
     (0 <= lN l)%Z /\ lclosed l = false /\ closes (lsrc l) = 0 /\
     acc ++ data_of (script (lsrc l)) = data_of s0 /\
-    ends_eof (script (lsrc l)) = ends_eof s0 /\
+    end_of (script (lsrc l)) = end_of s0 /\
     lN l = (n0 - Z.of_nat (length acc))%Z.
 
   Definition lim_post (out : list N) (e : err) (l : lim) : Prop :=
@@ -152,6 +163,17 @@ Section Limit.
       rewrite Hd0. symmetry. apply firstn_exact. exact Hlen'.
     - (* within the limit *)
       injection Hr as <- <- <-.
+      assert (Hfin : data_of (script src') = [] -> end_of (script (lsrc l)) = e0 ->
+                     lim_post (acc ++ bs0) e0
+                       {| lN := lN l - Z.of_nat (length bs0); lclosed := false; lsrc := src' |}).
+      { intros He1 He2.
+        unfold lim_post, limit_spec, limit_close. cbn [lclosed lsrc close_reader closes].
+        split; [lia|]. cbv zeta.
+        assert (Hd0 : data_of s0 = acc ++ bs0).
+        { rewrite <- Hdata, Hd, He1, app_nil_r. reflexivity. }
+        rewrite Hd0, app_length.
+        destruct (Z.gtb_spec (Z.of_nat (length acc + length bs0)) n0) as [Hbad|_]; [lia|].
+        rewrite <- Heof, He2. split; reflexivity. }
       destruct e0; try contradiction.
       + (* ENil *)
         destruct He as [He1 He2]. cbn [lsrc]. split; [|exact He2].
@@ -159,62 +181,107 @@ Section Limit.
         rewrite <- app_assoc, <- Hd, app_length.
         repeat split; try assumption; try lia; congruence.
       + (* EEOF *)
-        destruct He as [He1 He2].
-        unfold lim_post, limit_spec, limit_close. cbn [lclosed lsrc close_reader closes].
-        split; [lia|]. cbv zeta.
-        assert (Hd0 : data_of s0 = acc ++ bs0).
-        { rewrite <- Hdata, Hd, He1, app_nil_r. reflexivity. }
-        rewrite Hd0, app_length.
-        destruct (Z.gtb_spec (Z.of_nat (length acc + length bs0)) n0) as [Hbad|_]; [lia|].
-        rewrite <- Heof, He2. split; reflexivity.
-      + (* EFail *)
-        destruct He as (He1 & He2 & He3 & He4).
-        unfold lim_post, limit_spec, limit_close. cbn [lclosed lsrc close_reader closes].
-        split; [lia|]. cbv zeta.
-        assert (Hd0 : data_of s0 = acc ++ bs0).
-        { rewrite <- Hdata, He2, He1. reflexivity. }
-        rewrite Hd0, app_length.
-        destruct (Z.gtb_spec (Z.of_nat (length acc + length bs0)) n0) as [Hbad|_];
-          [subst bs0; cbn [length] in *; lia|].
-        rewrite <- Heof, He3. split; reflexivity.
+        destruct He as [He1 He2]. apply Hfin; assumption.
+      + (* EFail k *)
+        destruct He as [He1 He2]. apply Hfin; assumption.
+  Qed.
+
+  (* whenever the invariant holds, a Close now leaves the source closed once, and what was
+     delivered is a prefix of at most n0 bytes *)
+  Lemma lim_inv_stop l acc :
+    lim_inv l acc -> limit_stop_spec n0 s0 acc (closes (lsrc (limit_close l))).
+  Proof.
+    intros (HN & Hcl & Hc0 & Hdata & Heof & HlN).
+    unfold limit_stop_spec, limit_close. rewrite Hcl. cbn [lsrc close_reader closes].
+    split; [lia|]. split; [|lia].
+    exists (data_of (script (lsrc l))). symmetry. exact Hdata.
   Qed.
 End Limit.
 
+(* the first Read of a limiter built with a negative limit *)
+Lemma limit_read_neg want n s : (n < 0)%Z ->
+  limit_read Fixed want (lim_new n s) = ([], ETooLarge, lim_new n s).
+Proof.
+  intro Hn. unfold limit_read, lim_new. cbn [lN].
+  destruct (Z.ltb_spec n 0) as [_|Hbad]; [reflexivity | lia].
+Qed.
+
+Lemma limit_neg_spec n s k : (n < 0)%Z -> 1 <= k ->
+  limit_spec n s [] ETooLarge (closes (lsrc (lim_new n s)))
+             (closes (lsrc (Nat.iter k limit_close (lim_new n s)))).
+Proof.
+  intros Hneg Hk. rewrite (iter_idem limit_close limit_close_idem k _ Hk).
+  unfold limit_spec, limit_close, lim_new. cbn [lclosed lsrc close_reader closes].
+  split; [reflexivity|]. cbv zeta.
+  destruct (Z.gtb_spec (Z.of_nat (length (data_of s))) n) as [_|Hbad]; [|lia].
+  split; [|split; [reflexivity | lia]].
+  destruct n as [|p|p]; try lia. reflexivity.
+Qed.
+
+Lemma lim_inv_new n s : (0 <= n)%Z -> lim_inv n s (lim_new n s) [].
+Proof.
+  intro Hpos. unfold lim_inv, lim_new. cbn [lN lclosed lsrc script closes app length].
+  repeat split; try reflexivity; lia.
+Qed.
+
 Lemma limit_run_spec : forall n s c k, consumer_pos c -> 1 <= k ->
-  exists out e cb ca, limit_run Fixed n s c k = (out, Some e, cb, ca) /\
+  exists out e cb ca, limit_run Fixed n s c None k = (out, Some e, cb, ca) /\
                       limit_spec n s out e cb ca.
 Proof.
-  intros n s c k Hc Hk. unfold limit_run.
+  intros n s c k Hc Hk. unfold limit_run, fuel_of.
   destruct (Z.ltb_spec n 0) as [Hneg|Hpos].
   - (* negative limit: the first Read fails at once *)
     unfold limit_fuel. cbn [consume].
     destruct (next_size c) as [want c'] eqn:Hn.
-    assert (Hr : limit_read Fixed want (lim_new n s) = ([], ETooLarge, lim_new n s)).
-    { unfold limit_read, lim_new. cbn [lN].
-      destruct (Z.ltb_spec n 0) as [_|Hbad]; [reflexivity | lia]. }
-    rewrite Hr. cbn [app].
+    rewrite (limit_read_neg want n s Hneg). cbn [app].
     exists [], ETooLarge. eexists. eexists. split; [reflexivity|].
-    rewrite (iter_idem limit_close limit_close_idem k _ Hk).
-    unfold limit_spec, limit_close, lim_new. cbn [lclosed lsrc close_reader closes].
-    split; [reflexivity|]. cbv zeta.
-    destruct (Z.gtb_spec (Z.of_nat (length (data_of s))) n) as [_|Hbad]; [|lia].
-    split; [|split; [reflexivity | lia]].
-    destruct n as [|p|p]; try lia. reflexivity.
+    exact (limit_neg_spec n s k Hneg Hk).
   - destruct (consume_rule (limit_read Fixed) (lim_inv n s)
                (fun l => script_fuel (script (lsrc l))) (lim_post n s)
                (limit_read_step n s)
                (limit_fuel (lim_new n s)) c (lim_new n s) [] Hc)
       as (out & e & l1 & Hrun & Hpost).
-    + unfold lim_inv, lim_new. cbn [lN lclosed lsrc script closes app length].
-      repeat split; try reflexivity; lia.
+    + exact (lim_inv_new n s Hpos).
     + unfold limit_fuel. lia.
     + rewrite Hrun. exists out, e. eexists. eexists. split; [reflexivity|].
       rewrite (iter_idem limit_close limit_close_idem k _ Hk). exact Hpost.
 Qed.
 
+(* The consumer stops after at most [fuel] Read calls, whatever [fuel], and then calls Close. *)
+Lemma limit_run_stop_spec : forall n s c fuel k, consumer_pos c -> 1 <= k ->
+  exists out eo cb ca, limit_run Fixed n s c (Some fuel) k = (out, eo, cb, ca) /\
+    match eo with
+    | Some e => limit_spec n s out e cb ca
+    | None => limit_stop_spec n s out ca
+    end.
+Proof.
+  intros n s c fuel k Hc Hk. unfold limit_run, fuel_of.
+  destruct (Z.ltb_spec n 0) as [Hneg|Hpos].
+  - destruct fuel as [|fuel]; cbn [consume].
+    + exists [], None. eexists. eexists. split; [reflexivity|].
+      rewrite (iter_idem limit_close limit_close_idem k _ Hk).
+      unfold limit_stop_spec, limit_close, lim_new. cbn [lclosed lsrc close_reader closes length].
+      split; [reflexivity|]. split; [exists (data_of s); reflexivity | lia].
+    + destruct (next_size c) as [want c'] eqn:Hn.
+      rewrite (limit_read_neg want n s Hneg). cbn [app].
+      exists [], (Some ETooLarge). eexists. eexists. split; [reflexivity|].
+      exact (limit_neg_spec n s k Hneg Hk).
+  - destruct (consume_upto_rule (limit_read Fixed) (lim_inv n s) (lim_post n s)) 
+      with (fuel := fuel) (c := c) (s := lim_new n s) (acc := @nil N)
+      as (out & eo & l1 & Hrun & Hres).
+    + intros want l acc bs e l' Hw Hinv Hr.
+      pose proof (limit_read_step n s want l acc bs e l' Hw Hinv Hr) as H.
+      destruct e; try exact H. exact (proj1 H).
+    + exact Hc.
+    + exact (lim_inv_new n s Hpos).
+    + rewrite Hrun. exists out, eo. eexists. eexists. split; [reflexivity|].
+      rewrite (iter_idem limit_close limit_close_idem k _ Hk).
+      destruct eo as [e|]; [exact Hres | exact (lim_inv_stop n s _ _ Hres)].
+Qed.
+
 Lemma limit_over_refuted : exists n s c, consumer_pos c /\
   (Z.of_nat (length (data_of s)) > n)%Z /\
-  exists out cb ca, limit_run Original n s c 1 = (out, Some EEOF, cb, ca).
+  exists out cb ca, limit_run Original n s c None 1 = (out, Some EEOF, cb, ca).
 Proof.
   exists 2%Z, [Data [1; 2]%N; DataEOF [3]%N], {| csizes := []; cdflt := 4 |}.
   split; [split; [constructor | cbn [cdflt]; lia]|].
@@ -230,9 +297,10 @@ Fixpoint expect_rs (rs : list src) : list N * err :=
   match rs with
   | [] => ([], EEOF)
   | r :: t =>
-      if ends_eof (script (sreader r))
-      then (data_of (script (sreader r)) ++ fst (expect_rs t), snd (expect_rs t))
-      else (data_of (script (sreader r)), EFail)
+      match end_of (script (sreader r)) with
+      | EEOF => (data_of (script (sreader r)) ++ fst (expect_rs t), snd (expect_rs t))
+      | e => (data_of (script (sreader r)), e)
+      end
   end.
 
 Definition closes_due (rs : list src) : list nat :=
@@ -323,11 +391,12 @@ Section Multi.
         cbn [mreaders mgone]. split.
         * unfold multi_inv', multi_cl. cbn [expect_rs sreader closes_due map closable].
           fold (closes_due rest). rewrite He1.
-          destruct (ends_eof (script (sreader r))); cbn [fst snd] in *.
-          -- rewrite <- app_assoc, (app_assoc bs0), <- Hd.
-             repeat split; try assumption. constructor; [cbn [sreader]; lia | exact Hrest].
-          -- rewrite <- app_assoc, <- Hd.
-             repeat split; try assumption. constructor; [cbn [sreader]; lia | exact Hrest].
+          destruct (end_of (script (sreader r))); cbn [fst snd] in *;
+            try (rewrite <- app_assoc, <- Hd;
+                 repeat split; try assumption;
+                 constructor; [cbn [sreader]; lia | exact Hrest]).
+          rewrite <- app_assoc, (app_assoc bs0), <- Hd.
+          repeat split; try assumption. constructor; [cbn [sreader]; lia | exact Hrest].
         * cbn [fuel_rs fold_right sreader]. fold (fuel_rs rest). lia.
       + (* EEOF: the head source is exhausted and dropped *)
         destruct He as [He1 He2]. rewrite He2 in HE, HEr. cbn [fst snd] in HE, HEr.
@@ -355,11 +424,11 @@ Section Multi.
                 repeat split; assumption.
              ++ pose proof (script_fuel_pos (script (sreader r))) as Hpos.
                 cbn [fuel_rs fold_right]. cbn [fuel_rs fold_right] in Hpos. lia.
-      + (* EFail: the head source failed; it stays at the head *)
-        injection Hr as <- <- <-. destruct He as (He1 & He2 & He3 & He4).
-        rewrite He3 in HE, HEr. cbn [fst snd] in HE, HEr. rewrite He2 in HE.
+      + (* EFail k: the head source failed; it stays at the head *)
+        injection Hr as <- <- <-. destruct He as (He1 & He2).
+        rewrite He2 in HE, HEr. cbn [fst snd] in HE, HEr. rewrite Hd, He1, app_nil_r in HE.
         unfold multi_fin, multi_cl. cbn [mreaders mgone closes_due map closable].
-        fold (closes_due rest). rewrite He1.
+        fold (closes_due rest).
         repeat split; try assumption. constructor; [cbn [sreader]; lia | exact Hrest].
   Qed.
 
@@ -388,11 +457,20 @@ Section Multi.
   Qed.
 End Multi.
 
+Lemma multi_inv_new srcs :
+  multi_inv (fst (multi_expect srcs)) (snd (multi_expect srcs)) (expected_closes srcs)
+            (multi_new srcs) [].
+Proof.
+  unfold multi_inv, multi_inv', multi_cl, multi_new. cbn [mreaders mgone app gone_counts map].
+  rewrite expect_rs_new, closes_due_new.
+  repeat split; try reflexivity. apply unclosed_new.
+Qed.
+
 Lemma multi_read_spec : forall v srcs c k, consumer_pos c -> 1 <= k ->
-  exists out e cb ca, multi_run v srcs (ViaRead c) k = (out, Some e, cb, ca) /\
+  exists out e cb ca, multi_run v srcs (ViaRead c) None k = (out, Some e, cb, ca) /\
                       multi_spec srcs out e ca.
 Proof.
-  intros v srcs c k Hc Hk. unfold multi_run.
+  intros v srcs c k Hc Hk. unfold multi_run, fuel_of.
   destruct (consume_rule multi_read
               (multi_inv (fst (multi_expect srcs)) (snd (multi_expect srcs)) (expected_closes srcs))
               (fun m => fuel_rs (mreaders m))
@@ -401,14 +479,40 @@ Proof.
                  multi_read_step _ _ _ want m acc bs e m')
               (multi_fuel (multi_new srcs)) c (multi_new srcs) [] Hc)
     as (out & e & m1 & Hrun & Hpost).
-  - unfold multi_inv, multi_inv', multi_cl, multi_new. cbn [mreaders mgone app gone_counts map].
-    rewrite expect_rs_new, closes_due_new.
-    repeat split; try reflexivity. apply unclosed_new.
+  - apply multi_inv_new.
   - unfold multi_fuel, fuel_rs. lia.
   - rewrite Hrun. destruct Hpost as (H1 & H2 & H3).
     exists out, e. eexists. eexists. split; [reflexivity|].
     rewrite (iter_idem multi_close multi_close_idem k _ Hk).
     unfold multi_spec. repeat split; assumption.
+Qed.
+
+(* the consumer stops after at most [fuel] Read calls and then calls Close *)
+Lemma multi_read_stop_spec : forall v srcs c fuel k, consumer_pos c -> 1 <= k ->
+  exists out eo cb ca, multi_run v srcs (ViaRead c) (Some fuel) k = (out, eo, cb, ca) /\
+    match eo with
+    | Some e => multi_spec srcs out e ca
+    | None => multi_stop_spec srcs out ca
+    end.
+Proof.
+  intros v srcs c fuel k Hc Hk. unfold multi_run, fuel_of.
+  set (E := fst (multi_expect srcs)). set (Er := snd (multi_expect srcs)).
+  set (X := expected_closes srcs).
+  destruct (consume_upto_rule multi_read (multi_inv E Er X) (multi_post E Er X))
+    with (fuel := fuel) (c := c) (s := multi_new srcs) (acc := @nil N)
+    as (out & eo & m1 & Hrun & Hres).
+  - intros want m acc bs e m' Hw Hinv Hr.
+    pose proof (multi_read_step E Er X want m acc bs e m' Hw Hinv Hr) as H.
+    destruct e; try exact H. exact (proj1 H).
+  - exact Hc.
+  - apply multi_inv_new.
+  - rewrite Hrun. exists out, eo. eexists. eexists. split; [reflexivity|].
+    rewrite (iter_idem multi_close multi_close_idem k _ Hk).
+    destruct eo as [e|].
+    + destruct Hres as (H1 & H2 & H3). unfold multi_spec. repeat split; assumption.
+    + destruct Hres as (HE & _ & HX & Hun). unfold multi_stop_spec. split.
+      * exists (fst (expect_rs (mreaders m1))). symmetry. exact HE.
+      * rewrite (close_counts_multi_close _ Hun). exact HX.
 Qed.
 
 (* WriteTo path *)
@@ -417,18 +521,17 @@ Lemma copy_buf_pos : 0 < copy_buf.
 Proof. unfold copy_buf. lia. Qed.
 
 Lemma copy_all_spec c r : consumer_pos c -> exists r',
-  copy_all c r = (data_of (script r),
-                Some (if ends_eof (script r) then EEOF else EFail), r') /\
+  copy_all c r = (data_of (script r), Some (end_of (script r)), r') /\
   closes r' = closes r.
 Proof.
   intro Hcpos. unfold copy_all.
   destruct (consume_rule read
               (fun r1 acc => acc ++ data_of (script r1) = data_of (script r) /\
-                             ends_eof (script r1) = ends_eof (script r) /\
+                             end_of (script r1) = end_of (script r) /\
                              closes r1 = closes r)
               (fun r1 => script_fuel (script r1))
               (fun out e r1 => out = data_of (script r) /\
-                               e = (if ends_eof (script r) then EEOF else EFail) /\
+                               e = end_of (script r) /\
                                closes r1 = closes r))
     with (fuel := S (script_fuel (script r))) (c := c)
          (s := r) (acc := @nil N)
@@ -440,8 +543,8 @@ Proof.
       repeat split; try assumption; congruence.
     + destruct He as [He1 He2]. rewrite <- Heof, He2.
       rewrite <- Hd, Hd', He1, app_nil_r. repeat split; congruence.
-    + destruct He as (He1 & He2 & He3 & He4). rewrite <- Heof, He3.
-      rewrite <- Hd, He2, He1. repeat split; congruence.
+    + destruct He as [He1 He2]. rewrite <- Heof, He2.
+      rewrite <- Hd, Hd', He1, app_nil_r. repeat split; congruence.
   - exact Hcpos.
   - repeat split; reflexivity.
   - lia.
@@ -462,7 +565,9 @@ Proof.
     cbn beta in Hr0.
     cbn [multi_write_to_loop expect_rs].
     destruct (copy_all_spec c (sreader r) Hcpos) as (rd' & Hcopy & Hcl). rewrite Hcopy.
-    destruct (ends_eof (script (sreader r))).
+    destruct (end_of (script (sreader r)));
+      try (eexists; cbn [fst snd]; split; [reflexivity|]; cbn [mreaders mgone]; split;
+           [reflexivity | constructor; [cbn [sreader]; lia | exact Hrest]]).
     + destruct (IH (gone ++ [close_src {| sreader := rd'; closable := closable r |}])
                    (acc ++ data_of (script (sreader r))) Hrest) as (m' & Hrun & Hcnt & Hun').
       exists m'. rewrite Hrun. cbn [fst snd]. rewrite <- app_assoc.
@@ -471,13 +576,10 @@ Proof.
       fold (gone_counts gone).
       rewrite closes_close_src by (cbn [sreader]; lia).
       cbn [closable closes_due map]. rewrite <- app_assoc. reflexivity.
-    + eexists. cbn [fst snd]. split; [reflexivity|]. cbn [mreaders mgone]. split.
-      * reflexivity.
-      * constructor; [cbn [sreader]; lia | exact Hrest].
 Qed.
 
 Lemma multi_writeto_spec : forall srcs c k, consumer_pos c -> 1 <= k ->
-  exists out e cb ca, multi_run Fixed srcs (ViaWriteTo c) k = (out, Some e, cb, ca) /\
+  exists out e cb ca, multi_run Fixed srcs (ViaWriteTo c) None k = (out, Some e, cb, ca) /\
                       multi_spec srcs out e ca.
 Proof.
   intros srcs c k Hc Hk. unfold multi_run, multi_write_to, multi_new. cbn [mreaders mgone].
@@ -496,7 +598,7 @@ Lemma copy_consumer_pos : consumer_pos copy_consumer.
 Proof. split; [constructor | exact copy_buf_pos]. Qed.
 
 Lemma multi_writeto_refuted : exists srcs out e cb ca,
-  multi_run Original srcs (ViaWriteTo copy_consumer) 1 = (out, Some e, cb, ca) /\
+  multi_run Original srcs (ViaWriteTo copy_consumer) None 1 = (out, Some e, cb, ca) /\
   ca <> expected_closes srcs.
 Proof.
   exists [([DataEOF [1]%N], true); ([Data [2]%N], true)].
@@ -514,7 +616,7 @@ Section Tee.
   Definition tee_inv (t : tee) (acc : list N) : Prop :=
     topen t = true /\ teof t = false /\ wbuf (tw t) = acc /\
     acc ++ data_of (script (tr t)) = data_of s0 /\
-    ends_eof (script (tr t)) = ends_eof s0 /\
+    end_of (script (tr t)) = end_of s0 /\
     closes (tr t) = 0 /\ wcloses (tw t) = 0 /\
     (b0 = None -> wbudget (tw t) = None).
 
@@ -534,19 +636,24 @@ Section Tee.
     unfold tee_read in Hr. rewrite Hopen, Hteof in Hr. cbn [negb] in Hr.
     destruct (read want (tr t)) as [[bs0 e0] r'] eqn:Hrd.
     destruct (read_step _ _ _ _ _ Hw Hrd) as (Hd & Hc & _ & He).
+    (* any final state with the source and the writer not yet closed *)
     assert (Hfin : forall w' out, wbuf w' = out -> wcloses w' = 0 ->
               (exists rest, data_of s0 = out ++ rest) ->
               forall e1 eof',
               match e1 with
-              | EEOF => out = data_of s0 /\ ends_eof s0 = true
-              | EFail => out = data_of s0 /\ ends_eof s0 = false
               | EWriter => b0 <> None
-              | _ => False
+              | _ => out = data_of s0 /\ e1 = end_of s0
               end ->
               tee_post out e1 {| tr := r'; tw := w'; topen := true; teof := eof' |}).
     { intros w' out Hw1 Hw2 Hpre e1 eof' Hcase.
       unfold tee_post, tee_spec, tee_close. cbn [topen tr tw wbuf wcloses close_reader closes].
       repeat split; try assumption; lia. }
+    (* the source ended (EOF or failure) on this read, which delivered [bs0] *)
+    assert (Hend : forall e1, e1 <> EWriter -> data_of (script r') = [] ->
+              end_of (script (tr t)) = e1 ->
+              acc ++ bs0 = data_of s0 /\ e1 = end_of s0).
+    { intros e1 _ He1 He2. split; [|congruence].
+      rewrite <- Hdata, Hd, He1, app_nil_r. reflexivity. }
     destruct bs0 as [|b bs0].
     - (* empty read: nothing is written *)
       injection Hr as <- <- <-. rewrite app_nil_r. cbn [app] in Hd.
@@ -555,20 +662,27 @@ Section Tee.
         unfold tee_inv. cbn [tr tw topen teof].
         repeat split; try assumption; congruence.
       + destruct He as [He1 He2].
+        destruct (Hend EEOF ltac:(discriminate) He1 He2) as [Hout Hee].
+        rewrite app_nil_r in Hout.
         apply Hfin; try assumption.
-        * exists []. rewrite <- Hdata, Hd, He1. reflexivity.
-        * rewrite <- Hdata, Hd, He1, app_nil_r, <- Heof. split; [reflexivity | exact He2].
-      + destruct He as (_ & He2 & He3 & _).
+        * exists []. rewrite app_nil_r. symmetry. exact Hout.
+        * split; assumption.
+      + destruct He as [He1 He2].
+        destruct (Hend (EFail k) ltac:(discriminate) He1 He2) as [Hout Hee].
+        rewrite app_nil_r in Hout.
         apply Hfin; try assumption.
-        * exists []. rewrite <- Hdata, He2. reflexivity.
-        * rewrite <- Hdata, He2, app_nil_r, <- Heof. split; [reflexivity | exact He3].
+        * exists []. rewrite app_nil_r. symmetry. exact Hout.
+        * split; assumption.
     - remember (b :: bs0) as bs1 eqn:Hbs1.
+      set (eof1 := match e0 with
+                   | EEOF => true
+                   | EFail k => is_eof_kind k || false
+                   | _ => false
+                   end) in Hr.
       assert (Hr' : (let '(ok, w') := write bs1 (tw t) in
                      if ok
-                     then (bs1, e0, {| tr := r'; tw := w'; topen := true;
-                                       teof := match e0 with EEOF => true | _ => false end |})
-                     else ([], EWriter, {| tr := r'; tw := w'; topen := true;
-                                           teof := match e0 with EEOF => true | _ => false end |}))
+                     then (bs1, e0, {| tr := r'; tw := w'; topen := true; teof := eof1 |})
+                     else ([], EWriter, {| tr := r'; tw := w'; topen := true; teof := eof1 |}))
                     = (bs, e, t')).
       { subst bs1. exact Hr. }
       clear Hr Hbs1 b bs0.
@@ -577,8 +691,7 @@ Section Tee.
                  (bs1, e0, {| tr := r';
                               tw := {| wbuf := wbuf (tw t) ++ bs1; wbudget := k;
                                        wcloses := wcloses (tw t) |};
-                              topen := true;
-                              teof := match e0 with EEOF => true | _ => false end |})
+                              topen := true; teof := eof1 |})
                  = (bs, e, t') -> (b0 = None -> k = None) ->
                  match e with
                  | ENil => tee_inv t' (acc ++ bs) /\
@@ -592,15 +705,17 @@ Section Tee.
           rewrite <- app_assoc, <- Hd.
           repeat split; try assumption; congruence.
         - destruct He as [He1 He2].
+          destruct (Hend EEOF ltac:(discriminate) He1 He2) as [Hout Hee].
           apply Hfin; cbn [wbuf wcloses]; try assumption.
           + congruence.
-          + exists []. rewrite <- Hdata, Hd, He1, !app_nil_r. reflexivity.
-          + rewrite <- Hdata, Hd, He1, app_nil_r, <- Heof. split; [reflexivity | exact He2].
-        - destruct He as (He1 & He2 & He3 & _).
+          + exists []. rewrite app_nil_r. symmetry. exact Hout.
+          + split; assumption.
+        - destruct He as [He1 He2].
+          destruct (Hend (EFail k0) ltac:(discriminate) He1 He2) as [Hout Hee].
           apply Hfin; cbn [wbuf wcloses]; try assumption.
           + congruence.
-          + exists []. rewrite <- Hdata, He2, He1, !app_nil_r. reflexivity.
-          + rewrite <- Hdata, He2, He1, !app_nil_r, <- Heof. split; [reflexivity | exact He3]. }
+          + exists []. rewrite app_nil_r. symmetry. exact Hout.
+          + split; assumption. }
       destruct (wbudget (tw t)) as [[|k]|] eqn:Hb.
       + (* the writer refuses: no byte delivered, no byte written *)
         injection Hr' as <- <- <-. rewrite app_nil_r.
@@ -610,24 +725,63 @@ Section Tee.
       + apply (Hok (Some k) Hr'). intro Hnone. specialize (Hbud Hnone). congruence.
       + apply (Hok None Hr'). reflexivity.
   Qed.
+
+  Lemma tee_inv_stop t acc :
+    tee_inv t acc ->
+    tee_stop_spec s0 acc (wbuf (tw (tee_close t))) (closes (tr (tee_close t)))
+                  (wcloses (tw (tee_close t))).
+  Proof.
+    intros (Hopen & Hteof & Hbuf & Hdata & Heof & Hc0 & Hwc0 & Hbud).
+    unfold tee_stop_spec, tee_close. rewrite Hopen.
+    cbn [tr tw wbuf wcloses close_reader closes].
+    repeat split; try assumption; try lia.
+    exists (data_of (script (tr t))). symmetry. exact Hdata.
+  Qed.
 End Tee.
 
+Lemma tee_inv_new s b : tee_inv s b (tee_new s b) [].
+Proof.
+  unfold tee_inv, tee_new. cbn [tr tw topen teof wbuf wbudget wcloses script closes app].
+  repeat split; try reflexivity. intro H; exact H.
+Qed.
+
 Lemma tee_run_spec : forall s b c k, consumer_pos c -> 1 <= k ->
-  exists out e w sc wc, tee_run s b c k = (out, Some e, w, sc, wc) /\
+  exists out e w sc wc, tee_run s b c None k = (out, Some e, w, sc, wc) /\
                         tee_spec s b out e w sc wc.
 Proof.
-  intros s b c k Hc Hk. unfold tee_run.
+  intros s b c k Hc Hk. unfold tee_run, fuel_of.
   destruct (consume_rule tee_read (tee_inv s b)
               (fun t => script_fuel (script (tr t))) (tee_post s b)
               (tee_read_step s b)
               (tee_fuel (tee_new s b)) c (tee_new s b) [] Hc)
     as (out & e & t1 & Hrun & Hpost).
-  - unfold tee_inv, tee_new. cbn [tr tw topen teof wbuf wbudget wcloses script closes app].
-    repeat split; try reflexivity. intro H; exact H.
+  - apply tee_inv_new.
   - unfold tee_fuel. lia.
   - rewrite Hrun. rewrite (iter_idem tee_close tee_close_idem k _ Hk).
     exists out, e. eexists. eexists. eexists.
     split; [reflexivity | exact Hpost].
+Qed.
+
+(* the consumer stops after at most [fuel] Read calls and then calls Close *)
+Lemma tee_run_stop_spec : forall s b c fuel k, consumer_pos c -> 1 <= k ->
+  exists out eo w sc wc, tee_run s b c (Some fuel) k = (out, eo, w, sc, wc) /\
+    match eo with
+    | Some e => tee_spec s b out e w sc wc
+    | None => tee_stop_spec s out w sc wc
+    end.
+Proof.
+  intros s b c fuel k Hc Hk. unfold tee_run, fuel_of.
+  destruct (consume_upto_rule tee_read (tee_inv s b) (tee_post s b))
+    with (fuel := fuel) (c := c) (s := tee_new s b) (acc := @nil N)
+    as (out & eo & t1 & Hrun & Hres).
+  - intros want t acc bs e t' Hw Hinv Hr.
+    pose proof (tee_read_step s b want t acc bs e t' Hw Hinv Hr) as H.
+    destruct e; try exact H. exact (proj1 H).
+  - exact Hc.
+  - apply tee_inv_new.
+  - rewrite Hrun. rewrite (iter_idem tee_close tee_close_idem k _ Hk).
+    exists out, eo. eexists. eexists. eexists. split; [reflexivity|].
+    destruct eo as [e|]; [exact Hres | exact (tee_inv_stop s b _ _ Hres)].
 Qed.
 
 (* ===================================================================================== *)
@@ -641,44 +795,81 @@ Proof. split; [repeat constructor | cbn [cdflt ex_consumer]; lia]. Qed.
 (* Over-limit source whose 3rd byte arrives with EOF: the current tree reports ErrStreamTooLarge
    after exactly 2 bytes and has closed the source itself ... *)
 Example limit_over_fixed :
-  limit_run Fixed 2 [Data [1; 2]%N; DataEOF [3]%N] {| csizes := []; cdflt := 4 |} 2
+  limit_run Fixed 2 [Data [1; 2]%N; DataEOF [3]%N] {| csizes := []; cdflt := 4 |} None 2
   = ([1; 2]%N, Some ETooLarge, 1, 1).
 Proof. vm_compute. reflexivity. Qed.
 
 (* ... where the code before the fix ended in a clean EOF. *)
 Example limit_over_original :
-  limit_run Original 2 [Data [1; 2]%N; DataEOF [3]%N] {| csizes := []; cdflt := 4 |} 1
+  limit_run Original 2 [Data [1; 2]%N; DataEOF [3]%N] {| csizes := []; cdflt := 4 |} None 1
   = ([1; 2]%N, Some EEOF, 1, 1).
 Proof. vm_compute. reflexivity. Qed.
 
 Example limit_within :
-  limit_run Fixed 5 [Data [1; 2]%N; Zero; DataEOF [3]%N] ex_consumer 1
+  limit_run Fixed 5 [Data [1; 2]%N; Zero; DataEOF [3]%N] ex_consumer None 1
   = ([1; 2; 3]%N, Some EEOF, 0, 1).
+Proof. vm_compute. reflexivity. Qed.
+
+(* data delivered together with a failure that wraps io.EOF: all of it, and that very error *)
+Example limit_within_datafail :
+  limit_run Fixed 5 [Data [1; 2]%N; DataFail [3]%N FWrapEOF] ex_consumer None 1
+  = ([1; 2; 3]%N, Some (EFail FWrapEOF), 0, 1).
+Proof. vm_compute. reflexivity. Qed.
+
+(* the consumer stops after two Read calls, then Close *)
+Example limit_stopped :
+  limit_run Fixed 5 [Data [1; 2]%N; Zero; DataEOF [3]%N] ex_consumer (Some 2) 1
+  = ([1; 2]%N, None, 0, 1).
 Proof. vm_compute. reflexivity. Qed.
 
 Example multi_read_run :
   multi_run Fixed [([Data [1; 2]%N; DataEOF [3]%N], true); ([], false); ([Data [4]%N], true)]
-            (ViaRead ex_consumer) 2
+            (ViaRead ex_consumer) None 2
   = ([1; 2; 3; 4]%N, Some EEOF, [1; 0; 1], [1; 0; 1]).
 Proof. vm_compute. reflexivity. Qed.
 
+(* a non-last source that fails with an error wrapping io.EOF is NOT a finished source: the
+   stream ends there with that error, and Close closes it and the sources after it *)
+Example multi_read_wrapped_eof :
+  multi_run Fixed [([DataEOF [1]%N], true); ([Data [2]%N; Fail FWrapEOF], true); ([Data [3]%N], true)]
+            (ViaRead ex_consumer) None 1
+  = ([1; 2]%N, Some (EFail FWrapEOF), [1; 0; 0], [1; 1; 1]).
+Proof. vm_compute. reflexivity. Qed.
+
+(* the consumer stops after one Read call with three sources unfinished; Close closes them all *)
+Example multi_read_stopped :
+  multi_run Fixed [([Data [1; 2]%N], true); ([Data [3]%N], false); ([Data [4]%N], true)]
+            (ViaRead ex_consumer) (Some 1) 2
+  = ([1]%N, None, [0; 0; 0], [1; 0; 1]).
+Proof. vm_compute. reflexivity. Qed.
+
 Example multi_writeto_run_fixed :
-  multi_run Fixed [([DataEOF [1]%N], true); ([Data [2]%N; Fail], true); ([Data [3]%N], true)]
-            (ViaWriteTo ex_consumer) 3
-  = ([1; 2]%N, Some EFail, [1; 0; 0], [1; 1; 1]).
+  multi_run Fixed [([DataEOF [1]%N], true); ([Data [2]%N; Fail FPlain], true); ([Data [3]%N], true)]
+            (ViaWriteTo ex_consumer) None 3
+  = ([1; 2]%N, Some (EFail FPlain), [1; 0; 0], [1; 1; 1]).
 Proof. vm_compute. reflexivity. Qed.
 
 Example multi_writeto_run_original :
-  multi_run Original [([DataEOF [1]%N], true); ([Data [2]%N], true)] (ViaWriteTo copy_consumer) 1
+  multi_run Original [([DataEOF [1]%N], true); ([Data [2]%N], true)] (ViaWriteTo copy_consumer) None 1
   = ([1; 2]%N, Some EEOF, [0; 0], [0; 0]).
 Proof. vm_compute. reflexivity. Qed.
 
 Example tee_run_ok :
-  tee_run [Data [1; 2]%N; Zero; DataEOF [3]%N] None ex_consumer 2
+  tee_run [Data [1; 2]%N; Zero; DataEOF [3]%N] None ex_consumer None 2
   = ([1; 2; 3]%N, Some EEOF, [1; 2; 3]%N, 1, 1).
 Proof. vm_compute. reflexivity. Qed.
 
 Example tee_run_writer_fails :
-  tee_run [Data [1; 2]%N; Zero; DataEOF [3]%N] (Some 1) ex_consumer 1
+  tee_run [Data [1; 2]%N; Zero; DataEOF [3]%N] (Some 1) ex_consumer None 1
   = ([1]%N, Some EWriter, [1]%N, 1, 1).
+Proof. vm_compute. reflexivity. Qed.
+
+Example tee_run_datafail :
+  tee_run [Data [1; 2]%N; DataFail [3]%N FWrapUEOF] None ex_consumer None 1
+  = ([1; 2; 3]%N, Some (EFail FWrapUEOF), [1; 2; 3]%N, 1, 1).
+Proof. vm_compute. reflexivity. Qed.
+
+Example tee_run_stopped :
+  tee_run [Data [1; 2]%N; Zero; DataEOF [3]%N] None ex_consumer (Some 1) 1
+  = ([1]%N, None, [1]%N, 1, 1).
 Proof. vm_compute. reflexivity. Qed.
